@@ -7,7 +7,10 @@ def parse(script):
     head, body = script.split(" | ", 1)
     hw = head.split()
     end = int(hw[2])
-    queues = [(int(w.split(":")[0]), int(w.split(":")[1])) for w in hw[4:]]
+    queues = []
+    for w in hw[4:]:
+        f = w.split(":")
+        queues.append((int(f[0]), int(f[1]), int(f[2]) if len(f) > 2 else None))
     reqs = []
     for op in body.split(" ; "):
         w = op.split()
@@ -30,14 +33,15 @@ class C10(Spec):
             "virtual seconds): a multiset of (target queue, delay, send instant) requests issued by one sequential sender; instants "
             "biased to tick phases 0, 1 ns, T/2, T-1 ns; delays 0, 1, T-1, T, T+1, negative, equal deadlines from a small pool, "
             "deadlines exactly on ticks; classes with > 32 and > 128 outstanding requests; a class with tiny target queues whose "
-            "consumer starts late (loop blocked). compared exactly: per queue the arrival sequence (request, virtual instant). The "
+            "consumer starts late (loop blocked); a class in which target queues get closed while delayed tasks for them are pending, "
+            "mixed with open queues' tasks due in the same tick. compared exactly: per queue the arrival sequence (request, virtual instant). The "
             "driver explores all executions of Got.Model.Delayed (forking where the loop's select has both a tick and a request "
             "ready) and the observation must be one of the outcomes. non-trivial = at least two requests on one queue or a request "
             "issued exactly at a tick")
     trusted_base = ["Go channel / select / time.Ticker semantics as encoded in Got.Model.Delayed (ticker channel holds one tick, "
                     "further ticks are dropped; select picks any ready case)",
                     "Go runtime faketime clock (time advances only when every goroutine is blocked = the model's maximal progress)"]
-    assumptions = ["handlers are non-nil", "target queues are not closed",
+    assumptions = ["handlers are non-nil", "never-early/once hold for all queues; lateness, order and no-loss are claimed for queues that are never closed",
                    "deadline order is claimed for delays >= 0 and while the loop was never blocked on a full target queue"]
 
     def oracle(self, script, impl):
@@ -50,7 +54,10 @@ class C10(Spec):
         except (ValueError, IndexError):
             return ("malformed", "bad script")
         n = len(reqs)
-        roomy = all(cap >= n + 1 and st == 0 for cap, st in queues)
+        # a queue that gets closed never blocks the loop once closed, but it may before: it has to be roomy as well.
+        # Its own tasks may be consumed by the closeChan branch: for them only never-early / once are checked.
+        roomy = all(cap >= n + 1 and st == 0 for cap, st, cl in queues)
+        closing = [cl is not None for cap, st, cl in queues]
         secs = impl.split(" | ")
         if len(secs) != len(queues) + 1:
             return ("malformed", "unexpected harness output: " + impl[:200])
@@ -75,18 +82,20 @@ class C10(Spec):
                 dl = t + d
                 if at < dl:
                     return ("early", "request #%d sent at %d with delay %d arrived at %d, %d ns before its deadline %d" % (i, t, d, at, dl - at, dl))
-                if roomy:
+                if roomy and not closing[qi]:
                     ref = max(dl, t)
                     tie = (t % T == 0 and d <= 0)
                     if at > ref + T or (at == ref + T and not tie):
                         return ("late", "request #%d sent at %d with delay %d arrived at %d = deadline + %d ns (>= one tick)" % (i, t, d, at, at - ref))
-                if roomy and all_nonneg:
+                if roomy and all_nonneg and not closing[qi]:
                     if prev is not None and dl < prev[1]:
                         return ("order", "queue %d: request #%d (deadline %d) arrived after #%d (deadline %d)" % (qi, i, dl, prev[0], prev[1]))
                     prev = (i, dl)
         for i in range(n):
             if i not in seen:
                 q, d, t = reqs[i]
+                if closing[q]:
+                    continue
                 if max(t + d, t) + 3 * T <= end:
                     return ("lost", "request #%d (queue %d, sent %d, delay %d) never arrived (observed until %d)" % (i, q, t, d, end))
         return None
@@ -96,6 +105,8 @@ class C10(Spec):
             _, queues, reqs = parse(script)
         except (ValueError, IndexError):
             return False
+        if any(cl is not None for (_, _, cl) in queues):
+            return True
         if any(t % T == 0 for (_, _, t) in reqs):
             return True
         per = {}
